@@ -166,7 +166,9 @@ class MySQLLoadQueryBuilder:
         return querystring
 
     def _load_file_sql(self, ctx: SqlContext) -> str:
-        return "LOAD DATA LOCAL INFILE '{}'".format(self._load_file)
+        # the file name is a string literal of the statement: quotes and backslashes in it are escaped like in any other
+        file_name = ValueWrapper(str(self._load_file), allow_parametrize=False)
+        return "LOAD DATA LOCAL INFILE {}".format(file_name.get_sql(ctx.copy(with_alias=False)))
 
     def _into_table_sql(self, ctx: SqlContext) -> str:
         table = cast(Table, self._into_table)
